@@ -1,9 +1,37 @@
 """C01 - every built policy file loads in the reference AppArmor parser, in every configuration."""
 import os
+import re
 import shutil
 
 from . import matrix, refparser
 from .common import REPO, HarnessError, digest, pmap
+
+
+RE_EXEC_RULE = re.compile(r"^\s*[^#\n]*\s[rwmlk]*(?:[pPcC][uU]?|[uU])x\s*(?:->|,)", re.M)
+RE_INC = re.compile(r"^\s*include\s+(?:if exists\s+)?<(abstractions/[^>]+)>", re.M)
+
+
+def exec_abstraction_users(aad, profs):
+    holders = set()
+    base = os.path.join(aad, "abstractions")
+    for dp, dns, fns in os.walk(base):
+        for fn in fns:
+            p = os.path.join(dp, fn)
+            try:
+                if RE_EXEC_RULE.search(matrix.read(p)):
+                    rel = os.path.relpath(p, aad)
+                    holders.add(rel)
+                    # foo.d/bar is pulled in by foo
+                    if ".d/" in rel:
+                        holders.add(rel.split(".d/")[0])
+            except OSError:
+                pass
+    out = set()
+    for pr in profs:
+        t = matrix.read(os.path.join(aad, pr))
+        if any(m in holders for m in RE_INC.findall(t)) and RE_EXEC_RULE.search(t):
+            out.add(pr)
+    return out
 
 
 def check_build(ctx, b, cache, compile_=False, dedup=True, only=None):
@@ -122,7 +150,11 @@ def run(ctx):
             if b.rc != 0:
                 continue
             profs = matrix.top_profiles(b.aad)
-            pick = sorted(set(p for p in profs if p in full_only) | set(ctx.rng.sample(profs, min(12, len(profs)))))
+            # profiles that include an abstraction with exec-transition rules: the only place where two rules written in
+            # different files can end up with conflicting x modifiers on overlapping globs (which only the DFA build sees)
+            risky = exec_abstraction_users(b.aad, profs)
+            ctx.extra["profiles_including_exec_abstractions"] = max(ctx.extra.get("profiles_including_exec_abstractions", 0), len(risky))
+            pick = sorted(set(p for p in profs if p in full_only) | set(ctx.rng.sample(profs, min(12, len(profs)))) | risky)
             fails, n = check_build(ctx, b, ccache, compile_=True, dedup=True, only=pick)
             ncomp += n
             for fn, cls, text in fails:
